@@ -35,7 +35,7 @@ def bounds(tier):
     return {'types': 'all %d message struct definitions of the shipped dialect packages' % len(_state.get('msgs', [])),
             'round_trip': 'as C03: every field value symbolic; strings of length 2 (+ declared+1 for short single-string messages; one over-long string at a time for multi-string messages); both versions',
             'decode': ('payload lengths {0,1,base-1,base,ext,ext+1,255} (v2) and {0,base-1,base,base+1} (v1)' if tier == 'quick'
-                       else 'every payload length 0..256 and 300 (v2); {0,1,base-1,base,base+1,ext,255} (v1)') +
+                       else 'every payload length 0..ext+2 and 254,255,256,300 (v2); {0,1,base-1,base,base+1,ext,255} (v1)') +
                       '; every payload byte and every spare-capacity byte symbolic; caller buffer capacity = max(len, ext)+2; '
                       'messages whose string fields give more than 64 NUL-position combinations (the scan forks per string byte): quick only lengths that end before/inside the first string; thorough adds the full length when <= 4096 combinations',
             'appended_zeros': 'k = 1 (quick) / 1 and 7 (thorough)',
